@@ -261,6 +261,42 @@ fn probe_dateroll(func: &str) -> bool {
                                 }
                             }
                         }
+                        // the derived predicates: a day is a non-business day exactly when it is not a business day (weekday and
+                        // no holiday), for the union and for each member calendar (holidays falling on week-end days included)
+                        "is_non_bus_day" | "is_bus_day" => {
+                            CASES.fetch_add(1, std::sync::atomic::Ordering::Relaxed);
+                            let bus = cal.is_weekday(&d) && !cal.is_holiday(&d);
+                            let obs = catch(|| (cal.is_bus_day(&d), cal.is_non_bus_day(&d)));
+                            if obs != Some((bus, !bus)) {
+                                report("probe", func, &format!("{}: (is_bus_day, is_non_bus_day)({})", name, d.date()), &format!("{:?}", obs), &format!("({}, {})", bus, !bus), false);
+                                return true;
+                            }
+                            // a member calendar whose holiday list contains week-end days
+                            let sat = d + Days::new((12 - d.weekday().num_days_from_monday() as u64) % 7);
+                            let c = Cal::new(vec![sat, d], vec![5, 6]);
+                            for x in [sat, d, d + Days::new(1)] {
+                                let b = c.is_weekday(&x) && !c.is_holiday(&x);
+                                let o = catch(|| (c.is_bus_day(&x), c.is_non_bus_day(&x)));
+                                if o != Some((b, !b)) {
+                                    report("probe", func, &format!("Cal(holidays=[{}, {}], wk=[5,6]): (is_bus_day, is_non_bus_day)({})", sat.date(), d.date(), x.date()), &format!("{:?}", o), &format!("({}, {})", b, !b), false);
+                                    return true;
+                                }
+                            }
+                        }
+                        // every calendar day from start to end, both included
+                        "cal_date_range" => {
+                            CASES.fetch_add(1, std::sync::atomic::Ordering::Relaxed);
+                            for len in [0u64, 1, 9, 400] {
+                                let e = d + Days::new(len);
+                                let exp: Vec<NaiveDateTime> = (0..=len).map(|k| d + Days::new(k)).collect();
+                                let obs = catch(|| cal.cal_date_range(&d, &e).ok());
+                                if obs != Some(Some(exp.clone())) {
+                                    let shown = match &obs { None => "PANIC".to_string(), Some(None) => "Err".to_string(), Some(Some(v)) => format!("{} dates, first {:?}, last {:?}", v.len(), v.first().map(|x| x.date()), v.last().map(|x| x.date())) };
+                                    report("probe", func, &format!("{}.cal_date_range({}, {})", name, d.date(), e.date()), &shown, &format!("{} dates, first {}, last {}", exp.len(), d.date(), e.date()), false);
+                                    return true;
+                                }
+                            }
+                        }
                         _ => return false,
                     }
                 }
@@ -481,6 +517,99 @@ fn main() {
             }
             if n_bad > 0 { all_ok = false; obs.push(format!("{} of {} pseudo-random doubles in [1e-300, 1e300] do not survive, first {:e}", n_bad, n, first_bad.unwrap())); }
             report("case", "d8", "FXRates([eurusd = x]).to_json() -> FXRates::from_json(..).rate(eur, usd) for doubles x needing all 17 significant digits", &if obs.is_empty() { "every quote came back bit for bit".to_string() } else { obs.join("; ") }, "every quote comes back bit for bit", all_ok);
+        }
+        // jsonmut: bounded sweep for C20's loading clause -- every document obtained from a valid one by deleting a field or list
+        // element, duplicating a list element, or altering one value (strings, numbers, null, wrong type) must load to a value
+        // or an error, never abort.  Serde's expansion and serde_json are outside both verifiers: this is exploration with the
+        // stated bound (four documents x every node x the alteration table below), never counted as proved.
+        "jsonmut" => {
+            use rateslib::calendars::{Cal, NamedCal, UnionCal};
+            use rateslib::dual::{Dual, Number};
+            use rateslib::fx::rates::{Ccy, FXRate, FXRates};
+            use rateslib::json::JSON;
+            use serde_json::Value;
+            std::panic::set_hook(Box::new(|_| {}));
+            fn paths(v: &Value, here: Vec<String>, out: &mut Vec<Vec<String>>) {
+                out.push(here.clone());
+                match v {
+                    Value::Object(m) => for (k, c) in m { let mut p = here.clone(); p.push(k.clone()); paths(c, p, out); },
+                    Value::Array(a) => for (i, c) in a.iter().enumerate() { let mut p = here.clone(); p.push(i.to_string()); paths(c, p, out); },
+                    _ => {}
+                }
+            }
+            fn at<'a>(v: &'a mut Value, p: &[String]) -> Option<&'a mut Value> {
+                let mut cur = v;
+                for k in p { cur = match cur { Value::Object(m) => m.get_mut(k)?, Value::Array(a) => a.get_mut(k.parse::<usize>().ok()?)?, _ => return None }; }
+                Some(cur)
+            }
+            fn alterations(v: &Value) -> Vec<Value> {
+                use serde_json::json;
+                let mut out = vec![Value::Null, json!({}), json!([]), json!("x"), json!(1)];
+                match v {
+                    Value::String(s) => { for t in ["", "eu", "jpyx", "\u{ff}\u{ff}\u{ff}", "e\u{301}u", "tgt,xyz", "|", "tgt||fed", "2001-01-01T00:00:00", "not a date"] { out.push(json!(t)); } out.push(json!(s.to_uppercase())); out.push(json!(format!("{} ", s))); }
+                    Value::Number(_) => { for t in [json!(0), json!(-1), json!(7), json!(255), json!(256), json!(1e308), json!(-0.0), json!(1.5), json!(18446744073709551615u64)] { out.push(t); } }
+                    Value::Bool(b) => out.push(json!(!b)),
+                    _ => {}
+                }
+                out
+            }
+            let fxr1 = FXRates::try_new(vec![FXRate::try_new("eur", "usd", Number::F64(1.08), None).unwrap(), FXRate::try_new("usd", "jpy", Number::F64(110.0), None).unwrap()], None).unwrap();
+            let fxr2 = FXRates::try_new(vec![
+                FXRate::try_new("eur", "usd", Number::Dual(Dual::new(1.08, vec!["q".to_string()])), Some(ndt(2004, 1, 5))).unwrap(),
+                FXRate::try_new("gbp", "usd", Number::F64(1.25), Some(ndt(2004, 1, 5))).unwrap()], Some(Ccy::try_new("usd").unwrap())).unwrap();
+            let cal = Cal::new(vec![ndt(2015, 9, 7), ndt(2015, 9, 9)], vec![5, 6]);
+            let docs: Vec<(&str, String)> = vec![
+                ("NamedCal", NamedCal::try_new("tgt,ldn|fed").unwrap().to_json().unwrap()),
+                ("FXRates", fxr1.to_json().unwrap()),
+                ("FXRates", fxr2.to_json().unwrap()),
+                ("Cal", cal.to_json().unwrap()),
+                ("UnionCal", UnionCal::new(vec![cal.clone()], Some(vec![cal.clone()])).to_json().unwrap()),
+            ];
+            let mut n_docs: u64 = 0;
+            let mut bad: Option<(String, String)> = None;
+            'outer: for (kind, doc) in &docs {
+                let root: Value = serde_json::from_str(doc).unwrap();
+                let mut ps = Vec::new();
+                paths(&root, vec![], &mut ps);
+                let mut variants: Vec<(String, Value)> = Vec::new();
+                for p in &ps {
+                    if p.is_empty() { continue; }
+                    let (parent, last) = (&p[..p.len() - 1], &p[p.len() - 1]);
+                    // delete
+                    let mut r = root.clone();
+                    if let Some(par) = at(&mut r, parent) {
+                        match par { Value::Object(m) => { m.remove(last); } Value::Array(a) => { if let Ok(i) = last.parse::<usize>() { if i < a.len() { a.remove(i); } } } _ => {} }
+                    }
+                    variants.push((format!("{} deleted", p.join("/")), r));
+                    // duplicate a list element
+                    let mut r = root.clone();
+                    if let Some(Value::Array(a)) = at(&mut r, parent) { if let Ok(i) = last.parse::<usize>() { if i < a.len() { let c = a[i].clone(); a.insert(i, c); variants.push((format!("{} duplicated", p.join("/")), r)); } } }
+                    // alter
+                    let orig = { let mut r0 = root.clone(); at(&mut r0, p).map(|x| x.clone()) };
+                    if let Some(o) = orig {
+                        for alt in alterations(&o) {
+                            let mut r = root.clone();
+                            if let Some(slot) = at(&mut r, p) { *slot = alt.clone(); }
+                            variants.push((format!("{} := {}", p.join("/"), alt), r));
+                        }
+                    }
+                }
+                for (what, v) in variants {
+                    let text = v.to_string();
+                    n_docs += 1;
+                    let ok = match *kind {
+                        "NamedCal" => catch(|| { let _ = NamedCal::from_json(&text); }).is_some(),
+                        "Cal" => catch(|| { let _ = Cal::from_json(&text); }).is_some(),
+                        "UnionCal" => catch(|| { let _ = UnionCal::from_json(&text); }).is_some(),
+                        _ => catch(|| { if let Ok(f) = FXRates::from_json(&text) { let _ = f.rate(&Ccy::try_new("eur").unwrap(), &Ccy::try_new("usd").unwrap()); } }).is_some(),
+                    };
+                    if !ok { bad = Some((format!("{}::from_json of a valid document with {}: {}", kind, what, text), "PANIC".to_string())); break 'outer; }
+                }
+            }
+            match bad {
+                Some((inp, obs)) => report("case", "jsonmut", &inp, &obs, "a value or an error", false),
+                None => report("case", "jsonmut", &format!("{} documents: every single deletion / list duplication / value alteration of five valid documents (NamedCal, two FXRates, Cal, UnionCal)", n_docs), "each loaded to a value or an error", "a value or an error", true),
+            }
         }
         // calsweep <tables.json>: for every named calendar, the RUNTIME object returned by get_calendar_by_name must agree with the
         // tables extracted from the sources on every day 1970-01-01..2200-12-31 (Monday-Friday: is_holiday <=> day in table; every day: is_bus_day <=> weekday
